@@ -348,7 +348,14 @@ func (s *Subscriber) OnSyncFinished() (<-chan SyncFinished, context.CancelFunc) 
 	// not reading the channel immediately.
 	cq := chanqueue.New[SyncFinished]()
 	ch := cq.In()
-	s.addEventChan <- ch
+	select {
+	case s.addEventChan <- ch:
+	case <-s.closing:
+		// Subscriber is shutting down; nothing is distributing events.
+		// Return a channel that is already closed.
+		close(ch)
+		return cq.Out(), func() {}
+	}
 
 	cncl := func() {
 		if ch == nil {
